@@ -2,7 +2,6 @@ package nc
 
 import (
 	"fmt"
-	"go/constant"
 	"go/token"
 	"strings"
 
@@ -197,9 +196,6 @@ func (r *Run) c09AdjustFitness(boundOnly bool) {
 		okShare = vt.Op == "bin" && vt.Name == "/" && vt.Args[0].String() == "recv.Organisms[*].Fitness" && vt.Args[1].String() == "float64(len(recv.Organisms))" && tm.Of(share.Addr).String() == "recv.Organisms[*].Fitness" &&
 			loopRangesOver(tm, InnermostLoop(loops, share.Block()), "recv.Organisms")
 	}
-	if !boundOnly {
-		r.Check(okShare, "adjustFitness.share", p.Pos(fn.Pos()), "the last fitness update of every organism is the division by the species size", "the fitness of every organism is not finally divided by the number of organisms of its species")
-	}
 	// sort best-first after the loop, before the marking
 	var sortCall ssa.CallInstruction
 	for _, c := range CallsNamed(fn, "sort.Sort") {
@@ -265,9 +261,37 @@ func (r *Run) c09AdjustFitness(boundOnly bool) {
 		r.Check(okB, "adjustFitness.marking-in-bounds", p.Pos(fn.Pos()), "marks Organisms[c] only while c < len(Organisms)", "the loop that marks organisms for elimination is not bounded by the length of the organism list: a survival threshold of 1.0 makes the epoch fail")
 		return
 	}
-	r.c09Stagnation(fn, tm, loops)
-	r.c09YouthBoost(fn, tm, loops, share)
-	r.c09NonNegative(fn, tm, loops, share)
+	// the four stages of the fitness adjustment: decided per path of one iteration (robust_c09b.go) wherever the loop
+	// can be evaluated that way, store by store otherwise
+	inline := r.c09LastImprovedInline(tm)
+	if pipe := r.c09FitnessPipeline(fn, tm, loops, inline); pipe.Decided {
+		r.Note("adjustFitness: fitness pipeline decided on %d iteration paths", pipe.Paths)
+		stage := func(st, construct, okDetail, consequence string) {
+			pos := p.Pos(fn.Pos())
+			if at, has := pipe.Pos[st]; has && at.IsValid() {
+				pos = p.Pos(at)
+			}
+			why, bad := pipe.Fail[st]
+			r.Check(!bad, construct, pos, okDetail, why+": "+consequence)
+		}
+		stage(c09StShare, "adjustFitness.share", "the last fitness update of every organism is the division by the species size", "the fitness of every organism is not finally divided by the number of organisms of its species")
+		stage(c09StStag, "adjustFitness.stagnation", "penalty exactly when Age - AgeOfLastImprovement + 1 - DropOffAge >= 0", "species are penalised a generation early or late (or not by the factor 0.01) and every quota derived from the adjusted fitness shifts")
+		stage(c09StBoost, "adjustFitness.youth-boost", "fitness * AgeSignificance exactly when Age <= 10, before the fitness is shared", "the age-adjusted fitness of some species, and with it every quota, is off by the factor AgeSignificance")
+		stage(c09StClamp, "adjustFitness.non-negative", "a negative fitness is replaced by a non-negative constant before the fitness is shared", "a negative fitness yields a negative expectation, for which floor(e) + mod(e,1) != e - the quotas no longer total the population size")
+		pos := fn.Pos()
+		if share != nil {
+			pos = share.Pos()
+		}
+		r.c09StagnationRecord(fn, pos)
+	} else {
+		r.Note("adjustFitness: fitness pipeline not decided per path (%s); store-by-store rules applied", pipe.Why)
+		{
+			r.Check(okShare, "adjustFitness.share", p.Pos(fn.Pos()), "the last fitness update of every organism is the division by the species size", "the fitness of every organism is not finally divided by the number of organisms of its species")
+		}
+		r.c09Stagnation(fn, tm, loops)
+		r.c09YouthBoost(fn, tm, loops, share)
+		r.c09NonNegative(fn, tm, loops, share)
+	}
 	r.c09ImprovementRecord(fn, tm, loops, sortCall)
 	r.Check(okParents, "adjustFitness.parent-count", p.Pos(fn.Pos()), "parents = int(floor(SurvivalThresh * n + 1))", "the number of organisms that remain available as parents is not int(floor(SurvivalThresh*n + 1))")
 	r.Check(okMark, "adjustFitness.marking", p.Pos(fn.Pos()), "exactly the positions parents, parents+1, ..., n-1 are marked", "the organisms marked for elimination are not exactly those at positions >= the parent count")
@@ -405,16 +429,12 @@ func (r *Run) c09CountOffspring() {
 	r.Check(okInit && okQ0 && okRet, "countOffspring.frame", p.Pos(fn.Pos()), "starts from quota 0 and the fraction handed in, returns both", "countOffspring does not start from (0, carried fraction) or does not return (quota, fraction)")
 }
 
-// c09Stagnation: the stagnation penalty (fitness * 0.01) applies exactly when
-// Age - AgeOfLastImprovement + 1 >= DropOffAge. The condition is normalised to
-// an integer-linear "L >= 0" and compared with that expression; the repository's
-// `debt := X; if debt == 0 { debt = 1 }; if debt >= 1` form is recognised as X >= 0.
-func (r *Run) c09Stagnation(fn *ssa.Function, tm *Termer, loops []*Loop) {
-	p := r.P
-	fit := p.Field(PkgG, "Organism", "Fitness")
-	// the getter is optional: a tree that spells Age-AgeOfLastImprovement out has no call to inline
-	li := p.FuncOpt(PkgG, "Species.lastImproved")
-	inline := func(c *ssa.Call) (Lin, bool) {
+// c09LastImprovedInline: the getter Species.lastImproved, when the tree has it and its body is
+// Age - AgeOfLastImprovement of its receiver, read as that difference (a tree that spells the difference out has no
+// call to inline).
+func (r *Run) c09LastImprovedInline(tm *Termer) func(c *ssa.Call) (Lin, bool) {
+	li := r.P.FuncOpt(PkgG, "Species.lastImproved")
+	return func(c *ssa.Call) (Lin, bool) {
 		if li == nil || c.Call.StaticCallee() != li {
 			return Lin{}, false
 		}
@@ -432,6 +452,16 @@ func (r *Run) c09Stagnation(fn *ssa.Function, tm *Termer, loops []*Loop) {
 		}
 		return linAtom("recv.Age").Add(linAtom("recv.AgeOfLastImprovement"), -1), true
 	}
+}
+
+// c09Stagnation (store-by-store form): the stagnation penalty (fitness * 0.01) applies exactly when
+// Age - AgeOfLastImprovement + 1 >= DropOffAge. The condition is normalised to
+// an integer-linear "L >= 0" and compared with that expression; the repository's
+// `debt := X; if debt == 0 { debt = 1 }; if debt >= 1` form is recognised as X >= 0 (c09IntCondLin).
+func (r *Run) c09Stagnation(fn *ssa.Function, tm *Termer, loops []*Loop) {
+	p := r.P
+	fit := p.Field(PkgG, "Organism", "Fitness")
+	inline := r.c09LastImprovedInline(tm)
 	want := linAtom("recv.Age").Add(linAtom("recv.AgeOfLastImprovement"), -1).Add(linConst(1), 1).Add(linAtom("p1.DropOffAge"), -1)
 	var pen *ssa.Store
 	for _, st := range FieldStores(fn, fit) {
@@ -459,71 +489,25 @@ func (r *Run) c09Stagnation(fn *ssa.Function, tm *Termer, loops []*Loop) {
 		return
 	}
 	g := conds[0]
-	// the comparison that holds where the penalty is applied, the replaced value (if any) on the left
-	cx, cy, cop, ok := CmpFact(g.Cond, g.True)
-	if !ok {
+	if _, _, _, ok := CmpFact(g.Cond, g.True); !ok {
 		r.Bad("adjustFitness.stagnation", p.Pos(pen.Pos()), "the condition of the stagnation penalty is not an integer comparison: "+tm.Of(g.Cond).String())
 		return
 	}
-	if _, isPhi := cx.(*ssa.Phi); !isPhi {
-		if _, yPhi := cy.(*ssa.Phi); yPhi {
-			cx, cy, cop = cy, cx, mirrorCmp(cop)
-		}
-	}
-	var got Lin
-	decided := false
-	if ph, isPhi := cx.(*ssa.Phi); isPhi && len(ph.Edges) == 2 {
-		// debt = X, replaced by a constant c when X == 0
-		for i := 0; i < 2; i++ {
-			c, isC := ph.Edges[i].(*ssa.Const)
-			x := ph.Edges[1-i]
-			if !isC || c.Value == nil || c.Value.Kind() != constant.Int {
-				continue
-			}
-			zeroGuard := false
-			for _, pg := range append(Guards(ph.Block().Preds[i]), Guard{}) {
-				if pg.Cond == nil {
-					continue
-				}
-				if zx, zy, zop, ok := CmpFact(pg.Cond, pg.True); ok && zop == token.EQL && zx == x && IsConstIntValue(zy, 0) {
-					zeroGuard = true
-				}
-			}
-			if !zeroGuard {
-				continue
-			}
-			lx := linStatic(tm, x, inline, 0)
-			ly := linStatic(tm, cy, inline, 0)
-			onX, ok1 := ineqAsLin(cop, lx, ly, true)                  // cond(X) as L>=0
-			onC, ok2 := ineqAsLin(cop, linConst(c.Int64()), ly, true) // cond(c)
-			if !ok1 || !ok2 || len(onC.T) != 0 {
-				continue
-			}
-			// onX = X - k >= 0
-			k := lx.Add(onX, -1) // k as Lin (constant expected)
-			if len(k.T) != 0 {
-				continue
-			}
-			switch {
-			case onC.C >= 0 && k.C == 1: // X == 0 included, X >= 1 included  =>  X >= 0
-				got, decided = lx, true
-			case k.C <= 0: // X >= k already contains 0
-				got, decided = onX, true
-			case onC.C < 0: // the replacement never satisfies the test: X >= k, X != 0
-				got, decided = onX, true
-			}
-		}
-	} else {
-		lx := linStatic(tm, cx, inline, 0)
-		ly := linStatic(tm, cy, inline, 0)
-		got, decided = ineqAsLin(cop, lx, ly, true)
-	}
+	got, decided := c09IntCondLin(tm, inline, g.Cond, g.True)
 	if !decided {
 		r.Bad("adjustFitness.stagnation", p.Pos(pen.Pos()), "the condition of the stagnation penalty could not be brought to the form L >= 0: "+tm.Of(g.Cond).String())
 		return
 	}
-	// the decision uses the improvement record as it stood before this generation's own update: every read of
-	// AgeOfLastImprovement (directly or through lastImproved) precedes every store to it in this function
+	r.c09StagnationRecord(fn, pen.Pos())
+	r.Check(got.Equal(want), "adjustFitness.stagnation", p.Pos(pen.Pos()), "penalty exactly when Age - AgeOfLastImprovement + 1 - DropOffAge >= 0",
+		"the stagnation penalty applies when "+got.String()+" >= 0; the age adjustment is defined as Age - AgeOfLastImprovement + 1 - DropOffAge >= 0 ("+want.String()+"), so species are penalised a generation early or late and every quota derived from the adjusted fitness shifts")
+}
+
+// c09StagnationRecord: the decision uses the improvement record as it stood before this generation's own update:
+// every read of AgeOfLastImprovement (directly or through lastImproved) precedes every store to it in this function.
+func (r *Run) c09StagnationRecord(fn *ssa.Function, at token.Pos) {
+	p := r.P
+	li := p.FuncOpt(PkgG, "Species.lastImproved")
 	aoli := p.Field(PkgG, "Species", "AgeOfLastImprovement")
 	var reads []ssa.Instruction
 	Instrs(fn, func(_ *ssa.BasicBlock, _ int, in ssa.Instruction) {
@@ -551,10 +535,8 @@ func (r *Run) c09Stagnation(fn *ssa.Function, tm *Termer, loops []*Loop) {
 			}
 		}
 	}
-	r.Check(okOrder && len(reads) > 0, "adjustFitness.stagnation.record", p.Pos(pen.Pos()), "the stagnation test reads the improvement record before this generation updates it",
+	r.Check(okOrder && len(reads) > 0, "adjustFitness.stagnation.record", p.Pos(at), "the stagnation test reads the improvement record before this generation updates it",
 		whyO+": a species due for the penalty that sets a new record in the same generation escapes it, its quota is about 100 times too large")
-	r.Check(got.Equal(want), "adjustFitness.stagnation", p.Pos(pen.Pos()), "penalty exactly when Age - AgeOfLastImprovement + 1 - DropOffAge >= 0",
-		"the stagnation penalty applies when "+got.String()+" >= 0; the age adjustment is defined as Age - AgeOfLastImprovement + 1 - DropOffAge >= 0 ("+want.String()+"), so species are penalised a generation early or late and every quota derived from the adjusted fitness shifts")
 }
 
 // reachesBlock: is there a CFG path from a to b?
